@@ -24,6 +24,16 @@ import (
 )
 
 func main() {
+	// call sequences with slowly growing DSTs and an oversize one in between: whatever the package keeps between calls
+	// (pooled states, cached digests) must not make a later call fail
+	for _, n := range []int{1, 2, 3, 15, 16, 17, 300, 33, 34, 255, 256, 49, 50} {
+		dst := make([]byte, n)
+		for i := range dst {
+			dst[i] = byte('A' + i%26)
+		}
+		_ = secp256k1.HashToScalar([]byte("seq"), dst)
+		_ = secp256k1.EncodeToGroup([]byte("seq"), dst)
+	}
 	for _, n := range []int{20, 1, 300} {
 		dst := make([]byte, n)
 		for i := range dst {
@@ -52,6 +62,58 @@ def plain_main():
         return p.returncode == 0, (p.stdout + p.stderr)[-600:]
     finally:
         shutil.rmtree(d, ignore_errors=True)
+
+
+RAND_MAIN = '''package main
+
+import (
+	"crypto/rand"
+	"errors"
+	"fmt"
+	"os"
+
+	"github.com/bytemare/secp256k1"
+)
+
+// another part of the program has replaced crypto/rand.Reader (a public variable): hashing is deterministic and must
+// neither fail nor change
+type zeroReader struct{}
+
+func (zeroReader) Read(p []byte) (int, error) { for i := range p { p[i] = 0 }; return len(p), nil }
+
+type failReader struct{}
+
+func (failReader) Read(p []byte) (int, error) { return 0, errors.New("entropy source unavailable") }
+
+func main() {
+	switch os.Getenv("VERIF_RAND") {
+	case "zero":
+		rand.Reader = zeroReader{}
+	case "fail":
+		rand.Reader = failReader{}
+	}
+	dst := []byte("verif-rand-main-dst-0123456789")
+	for _, msg := range [][]byte{[]byte("m"), nil, make([]byte, 31)} {
+		fmt.Println(secp256k1.HashToGroup(msg, dst).Hex())
+		fmt.Println(secp256k1.EncodeToGroup(msg, dst).Hex())
+		fmt.Println(secp256k1.HashToScalar(msg, dst).Hex())
+	}
+}
+'''
+
+
+def rand_main():
+    """hashing under a replaced crypto/rand.Reader; returns (ok, detail)"""
+    ok0, ref = run_main(RAND_MAIN)
+    if not ok0:
+        return False, 'with the default reader: ' + ref[-200:]
+    for mode in ('zero', 'fail'):
+        ok, out = run_main(RAND_MAIN, ['VERIF_RAND=' + mode])
+        if not ok:
+            return False, 'MISMATCH: with rand.Reader replaced (%s) a hashing function fails: %s' % (mode, out.strip().splitlines()[:1])
+        if out != ref:
+            return False, 'MISMATCH: with rand.Reader replaced (%s) the results differ from those with the default reader' % mode
+    return True, ''
 
 
 OVERRIDE_MAIN = '''package main
@@ -130,6 +192,8 @@ def run(tier, seed):
         if pi == 0:
             # every code path that may ask for a hash: oversize DST (pre-hash), short DST, empty message
             jobs += [{'id': 'reg%d_p%d_%d_%d' % (f, pi, m, d), 'harness': 'vh_hash', 'args': [f, m, d, 0], 'summaries': KS, 'hashmode': 'registry'} for f in FN for (m, d) in ((3, 300), (0, 1))]
+            # consecutive calls (state the package keeps between calls): second DST one byte longer / first DST oversize
+            jobs += [{'id': 'reg2_p0_tw%d' % mode, 'harness': 'vh_hash_twice', 'args': [2, 3, d, mode], 'summaries': KS, 'hashmode': 'registry'} for (mode, d) in ((3, 16), (4, 33))]
         rs = ck.absorb(core.symx(HARNESS, jobs, env=env))
         for r in rs:
             r.platform = ' '.join(env) or 'host'
@@ -139,7 +203,7 @@ def run(tier, seed):
     ck.trusted = ['go/ssa + symx translation', 'SMT solvers', 'the Go linker links exactly the import closure; crypto.RegisterHash calls happen in init functions with constant hash identifiers',
                   'a registered constructor returns a working hash.Hash (stub)']
     ck.assumptions = ['the rest of the program is arbitrary: it may or may not register SHA-256']
-    ck.bounds = {'programs': 'all, abstracted to the Booleans other_package_registers_sha256 / other_package_overrides_sha256', 'calls': 'HashToGroup, EncodeToGroup, HashToScalar with (|msg|,|dst|) in (3,16), (3,300: oversize pre-hash path), (0,1)'}
+    ck.bounds = {'programs': 'all, abstracted to the Booleans other_package_registers_sha256 / other_package_overrides_sha256', 'calls': 'HashToGroup, EncodeToGroup, HashToScalar with (|msg|,|dst|) in (3,16), (3,300: oversize pre-hash path), (0,1); two consecutive HashToScalar calls with |dst| = 15 then 16 and 300 then 33'}
     ck.extra['explanation'] = 'configuration quantifier turned into a solver variable; registry of the package\'s own import closure: %s' % (runs[0].d.get('registry') or 'no RegisterHash call found')
     ck.bounds['build configurations'] = [' '.join(e) or 'host (linux/amd64)' for e in plats]
     bad = None
@@ -173,7 +237,13 @@ def run(tier, seed):
             if not ok:
                 ck.violation('sha256-not-linked', '%s panics in a program that imports only this package: %s' % (bad[0], out.strip().splitlines()[0:1]), path)
             else:
-                ck.inconclusive.append('panic path feasible in the model but the plain main runs: %s' % out[-200:])
+                # the failing path may depend on other process-wide state a program is free to change: the randomness source
+                okr, outr = rand_main()
+                if not okr and 'MISMATCH' in outr:
+                    path = ck.save_replay({'property': 'C17', 'kind': 'rand-main', 'program': RAND_MAIN, 'symbolic': list(bad[:2])})
+                    ck.violation('depends-on-rand-reader', '%s depends on crypto/rand.Reader: %s' % (bad[0], outr), path)
+                else:
+                    ck.inconclusive.append('panic path feasible in the model but the plain main runs: %s' % out[-200:])
         else:
             # a foreign platform cannot be executed here: the replay is the real build graph for that platform
             has, out = deps_have_sha256(env)
@@ -197,6 +267,10 @@ def run(tier, seed):
 def replay(path):
     import json
     d = json.load(open(path))
+    if d.get('kind') == 'rand-main':
+        ok, out = rand_main()
+        print(out)
+        return 0 if ok else 1
     if d.get('kind') == 'override-main':
         ok, out = run_main(OVERRIDE_MAIN)
     elif d.get('env'):
